@@ -132,17 +132,28 @@ func runC20(c *Ctx) {
 		c.fail("C20.R1", "ordered-append kbuild", "Context.Redirects is never stored (rule shape lost)")
 	}
 	// file list
-	var filesCell *ssa.Alloc
-	for _, in := range g.Ins {
-		if al, ok := in.(*ssa.Alloc); ok && al.Comment == "sourceFiles" {
-			filesCell = al
-		}
-	}
 	walkClosures := []*ssa.Function{}
 	for _, in := range g.Ins {
 		if cc := callCommon(in); cc != nil && (extFn(cc, "path/filepath", "Walk") || extFn(cc, "path/filepath", "WalkDir")) {
 			if mc, ok := strip(cc.Args[1]).(*ssa.MakeClosure); ok {
 				walkClosures = append(walkClosures, mc.Fn.(*ssa.Function))
+			}
+		}
+	}
+	// the file list: the []string variable of FindRedirects that the Walk callback appends to
+	var filesCell *ssa.Alloc
+	for _, wc := range walkClosures {
+		for _, b := range m.blocksOf(wc) {
+			for _, in := range b.Instrs {
+				if st, ok := in.(*ssa.Store); ok {
+					if cell, ok := cellOf(st.Addr); ok && outermost(cell.Parent()) == find {
+						if sl, ok := st.Val.Type().Underlying().(*types.Slice); ok {
+							if bt, ok := sl.Elem().Underlying().(*types.Basic); ok && bt.Kind() == types.String {
+								filesCell = cell
+							}
+						}
+					}
+				}
 			}
 		}
 	}
